@@ -78,6 +78,15 @@ pub fn one_case(rng: &mut Rng, o: &GenOpts, prop: &str) -> CaseOut {
             return out;
         }
     };
+    if rng.chance(1, 6) {
+        // a record whose write fails half-way must not leak into what the same thread encodes next
+        let mut failing = CapW::new();
+        failing.budget = Some(rng.usize_below(30));
+        let mut other = ctx.clone();
+        other.message = "THIS-FAILED-RECORD-MUST-NOT-SHOW-UP".into();
+        let p2 = vec![other.message.clone()];
+        let _ = trap::catch(|| with_record(&other, &p2, |rec| enc.encode(&mut failing, rec)));
+    }
     for attempt in 0..3 {
         let mut w = if short { CapW::short(rng.next_u64()) } else { CapW::new() };
         let t0 = Utc::now();
@@ -243,10 +252,8 @@ pub fn run(rep: &mut Report) {
             rep.sample(json!({"pattern": out.pattern}));
         }
     });
-    if rep.tier == "thorough" {
-        // the verdict can flip between profiles (debug_assertions, overflow checks): repeat in release
-        crate::subrun::merge(rep, "L4V_BIN_RELEASE", "C09", "release");
-    }
+    // the verdict can flip between profiles (debug_assertions, overflow checks): repeat in release (both tiers)
+    crate::subrun::merge(rep, "L4V_BIN_RELEASE", "C09", "release");
     if std::env::var("L4V_SUBRUN").is_err() {
         zone_change(rep);
     }
